@@ -66,3 +66,50 @@ void h_sps(void) {
     V_CANARY("sps block returns");
 }
 #endif
+
+#if defined(U19_RPS)
+#include "Source/Lib/Encoder/Codec/EbPictureDecisionProcess.c"
+/* U19.3 — av1_generate_rps_info: frame type and reference signalling of a key frame.
+ *   (a) every picture: frame_type == KEY_FRAME iff (I slice && idr), INTRA_ONLY iff (I slice && !idr), else INTER;
+ *       intra_only flag == I slice;
+ *   (b) key frame, every hierarchical depth 0..5: shown immediately (show_frame), never re-shown later
+ *       (has_show_existing off) and the layer toggles restart at 0 — the reference-slot rotation of the new GOP
+ *       does not depend on anything before the key frame. */
+void h_rps(void) {
+    PictureParentControlSet *pcs = malloc(sizeof(*pcs)); PictureDecisionContext *ctx = malloc(sizeof(*ctx));
+    SequenceControlSet *scs = malloc(sizeof(*scs)); EbObjectWrapper *w = malloc(sizeof(*w)); EncodeContext *ec = malloc(sizeof(*ec));
+    PredictionStructure *ps = malloc(sizeof(*ps)); PredictionStructureEntry *pe = malloc(sizeof(*pe));
+    PredictionStructureEntry **arr = malloc(sizeof(*arr) * 4);
+    __CPROVER_assume(pcs && ctx && scs && w && ec && ps && pe && arr);
+    w->object_ptr = scs; pcs->scs_wrapper_ptr = w; pcs->pred_struct_ptr = ps; ps->pred_struct_entry_ptr_array = arr;
+    arr[0] = pe; arr[1] = pe; arr[2] = pe; arr[3] = pe;
+    __CPROVER_assume(pcs->pred_struct_index < 4);
+    __CPROVER_assume(pcs->idr_flag <= 1);
+    __CPROVER_assume(pcs->slice_type == I_SLICE && pcs->idr_flag == EB_TRUE);
+    __CPROVER_assume(pcs->hierarchical_levels <= 5);
+    V_NONDET(uint32_t, pic_idx); V_NONDET(uint32_t, mg_idx);
+    av1_generate_rps_info(pcs, ec, ctx, pic_idx, mg_idx);
+    V_ASSERT(pcs->frm_hdr.frame_type == KEY_FRAME, "an IDR picture is coded as KEY_FRAME");
+    V_ASSERT(pcs->intra_only == 1, "intra_only set for an I slice");
+    V_ASSERT(pcs->frm_hdr.show_frame == EB_TRUE && pcs->has_show_existing == EB_FALSE, "a key frame is shown at once and never re-shown: full implicit refresh of all reference slots (AV1 5.9.2)");
+    V_ASSERT(ctx->lay0_toggle == 0 && ctx->lay1_toggle == 0 && ctx->lay2_toggle == 0, "reference-slot rotation restarts at the key frame");
+    V_CANARY("key frame path returns");
+}
+void h_rps_type(void) {
+    PictureParentControlSet *pcs = malloc(sizeof(*pcs)); PictureDecisionContext *ctx = malloc(sizeof(*ctx));
+    SequenceControlSet *scs = malloc(sizeof(*scs)); EbObjectWrapper *w = malloc(sizeof(*w)); EncodeContext *ec = malloc(sizeof(*ec));
+    PredictionStructure *ps = malloc(sizeof(*ps)); PredictionStructureEntry *pe = malloc(sizeof(*pe));
+    PredictionStructureEntry **arr = malloc(sizeof(*arr) * 4);
+    __CPROVER_assume(pcs && ctx && scs && w && ec && ps && pe && arr);
+    w->object_ptr = scs; pcs->scs_wrapper_ptr = w; pcs->pred_struct_ptr = ps; ps->pred_struct_entry_ptr_array = arr;
+    arr[0] = pe; arr[1] = pe; arr[2] = pe; arr[3] = pe;
+    __CPROVER_assume(pcs->pred_struct_index < 4 && pcs->idr_flag <= 1 && pcs->hierarchical_levels <= 5);
+    __CPROVER_assume(pcs->slice_type == I_SLICE || pcs->slice_type == P_SLICE || pcs->slice_type == B_SLICE);
+    EB_SLICE st = pcs->slice_type; EbBool idr = pcs->idr_flag;
+    V_NONDET(uint32_t, pic_idx); V_NONDET(uint32_t, mg_idx);
+    av1_generate_rps_info(pcs, ec, ctx, pic_idx, mg_idx);
+    V_ASSERT(pcs->frm_hdr.frame_type == (st == I_SLICE ? (idr ? KEY_FRAME : INTRA_ONLY_FRAME) : INTER_FRAME), "frame type: KEY iff IDR I-slice, INTRA_ONLY iff non-IDR I-slice, INTER otherwise");
+    V_ASSERT(pcs->intra_only == (st == I_SLICE), "intra_only flag == I slice");
+    V_CANARY("any picture returns");
+}
+#endif
